@@ -752,6 +752,9 @@ class ProcessStatus:
         :return: True if the process is not defined anywhere anymore.
         """
         del self.info_map[identifier]
+        # the process cannot be considered as running on a Supvisors instance that does not define it anymore
+        if self.info_map and identifier in self.running_identifiers:
+            self.update_status(identifier, ProcessStates.STOPPED)
         return self.info_map == {}
 
     def update_status(self, identifier: str, new_state: ProcessStates) -> None:
